@@ -16,7 +16,10 @@ Inductive dir_dec := DSkip | DGiErr | DEnter (ms' : stack).
 Definition dir_decision (c : cfg) (ms : stack) (p : path) (ch : list node) : dir_dec :=
   if should_skip_dir c ms p then DSkip
   else if c_gitignore c then
-    match parse_dir_gi p ch with GiErr => DGiErr | GiOk m => DEnter (m :: ms) end
+    match parse_dir_gi p ch with
+    | GiErr => if c_fatal c then DGiErr else DEnter (None :: ms)
+    | GiOk m => DEnter (m :: ms)
+    end
   else DEnter ms.
 
 (* top-level copies of the nested fixpoints of walk_node / schedule *)
